@@ -4,6 +4,7 @@ import RpmVerif.Driver.C16
 import RpmVerif.Driver.C20
 import RpmVerif.Driver.C18
 import RpmVerif.Driver.C15
+import RpmVerif.Driver.C19
 /-! Driver: one request per line in (`<op> <args…> => <impl observation>`), one answer per line
 out (`<model observation> | <spec verdict> | <branch label>`).
 Each property contributes `Driver/Cxx.lean` with `ops : List String` and
@@ -16,7 +17,8 @@ def handlers : List (List String × (String → List String → String → Strin
   (C16.ops, C16.handle),
   (C20.ops, C20.handle),
   (C18.ops, C18.handle),
-  (C15.ops, C15.handle)
+  (C15.ops, C15.handle),
+  (C19.ops, C19.handle)
 ]
 
 def dispatch (line : String) : String :=
